@@ -25,7 +25,7 @@ class Tier:
     def __init__(self, name):
         self.name = name
         q = name == "quick"
-        self.n_generated = int(os.environ.get("VERIF_C10_GEN", 420 if q else 2400))
+        self.n_generated = int(os.environ.get("VERIF_C10_GEN", 640 if q else 3000))
         self.n_hash = int(os.environ.get("VERIF_C10_HASH", 3 if q else 11))      # besides seed 0
         self.n_layout = int(os.environ.get("VERIF_C10_LAYOUT", 2 if q else 7))   # besides layout 0
         self.n_hist = int(os.environ.get("VERIF_C10_HIST", 28 if q else 420))
